@@ -84,7 +84,9 @@ Only(f)  == [g \in DevNames |-> g = f]
 
 (* ------------------------------------ typed values -------------------------------------------- *)
 IntTypes   == {"PyInt", "NpInt8", "NpInt16", "NpInt32", "NpInt64", "NpUInt8", "NpUInt16", "NpUInt32", "NpUInt64"}
-FloatTypes == {"PyFloat", "NpFloat16", "NpFloat32", "NpFloat64"}
+\* NpLongDouble (np.longdouble / np.float128): JSON holds doubles, so only values a double represents exactly are inside
+\* the property for it (all pool values are); it is written like every other float and comes back as a Python float
+FloatTypes == {"PyFloat", "NpFloat16", "NpFloat32", "NpFloat64", "NpLongDouble"}
 EncodedIntTypes   == {"PyInt", "NpInt32", "NpInt64"}         \* what the code as found handles
 Num(t, n, d) == [t |-> t, n |-> n, d |-> d, s |-> ""]
 Str(s)       == [t |-> "Str", n |-> 0, d |-> 1, s |-> s]
@@ -108,6 +110,7 @@ ScalarOfDtype(dt) == CASE dt = "int8" -> "NpInt8" [] dt = "int16" -> "NpInt16" [
                        [] dt = "int64" -> "NpInt64" [] dt = "uint8" -> "NpUInt8" [] dt = "uint16" -> "NpUInt16"
                        [] dt = "uint32" -> "NpUInt32" [] dt = "uint64" -> "NpUInt64" [] dt = "float16" -> "NpFloat16"
                        [] dt = "float32" -> "NpFloat32" [] dt = "float64" -> "NpFloat64" [] dt = "bool" -> "NpBool"
+                       [] dt = "float128" -> "NpLongDouble"
 
 RECURSIVE Prod(_)
 Prod(sh) == IF sh = <<>> THEN 1 ELSE Head(sh) * Prod(Tail(sh))
@@ -150,7 +153,7 @@ EncScalar(v, D) ==
     [] v.t = "NpBool" -> IF D.NpBoolRaises THEN JRaise("TypeError") ELSE JBool(v.n = 1)
     [] v.t \in IntTypes ->
          IF D.NarrowScalarRaises /\ v.t \notin EncodedIntTypes THEN JRaise("TypeError") ELSE JNum("int", v.n, 1)
-    [] v.t \in {"PyFloat", "NpFloat64"} -> JNum("float", v.n, v.d)     \* np.float64 is a Python float
+    [] v.t \in {"PyFloat", "NpFloat64", "NpLongDouble"} -> JNum("float", v.n, v.d)     \* np.float64 is a Python float
     [] v.t = "NpFloat16" ->
          IF D.NarrowScalarRaises THEN JRaise("TypeError") ELSE JNum("float", v.n, v.d)
     [] v.t = "NpFloat32" ->
@@ -300,6 +303,7 @@ Child(P, k) ==
 IsPy(t) == t \in {"PyInt", "PyFloat"}
 WeakJoin(py, np) == IF py = "PyInt" THEN np ELSE IF np \in FloatTypes THEN np ELSE "NpFloat64"
 NpJoin(a, b) == IF a = b THEN a
+                ELSE IF "NpLongDouble" \in {a, b} THEN "NpLongDouble"
                 ELSE IF "NpFloat64" \in {a, b} THEN "NpFloat64"
                 ELSE IF {a, b} = {"NpInt32", "NpInt64"} THEN "NpInt64"
                 ELSE "NpFloat64"          \* float32 with int32/int64 (only the four wide types are mixed)
@@ -494,6 +498,7 @@ ScalarPool ==
     Num("NpFloat16", 3, 2), Num("NpFloat16", -1, 4), Num("NpFloat16", 2, 1),
     Num("NpFloat32", 0, 1), Num("NpFloat32", 3, 2), Num("NpFloat32", -1, 4), Num("NpFloat32", 2, 1), Num("NpFloat32", -7, 2),
     Num("NpFloat32", 15, 8),
+    Num("NpLongDouble", 0, 1), Num("NpLongDouble", 3, 2), Num("NpLongDouble", -1, 4), Num("NpLongDouble", 1, 0), Num("NpLongDouble", 0, -1),
     Num("NpFloat64", 0, 1), Num("NpFloat64", 3, 2), Num("NpFloat64", -1, 4), Num("NpFloat64", 2, 1), Num("NpFloat64", 1, 10),
     Str(""), Str("ab"), Str("qpsk"),
     \* infinities and the negative zero in every float width
@@ -507,7 +512,7 @@ ScalarPool ==
 \* list elements (mixed types; 1.5 appears as Python, float32 and float64 value)
 E1q == <<Num("PyInt", 1, 1), Num("PyFloat", 3, 2), Num("NpInt32", -3, 1), Num("NpInt64", 7, 1),
          Num("NpFloat32", 3, 2), Num("NpFloat64", -1, 4), Str("x"), Num("PyFloat", 2, 1), Num("NpFloat32", -1, 0),
-         Str("{x}"), Num("NpBool", 0, 1)>>
+         Str("{x}"), Num("NpBool", 0, 1), Num("NpLongDouble", 5, 2), Str("a@u{dcff}@b @u{e9}@ @u{1f600}@")>>
 E1t == E1q \o <<Num("NpInt8", 7, 1), Num("NpUInt16", 7, 1), Num("NpFloat16", 3, 2), Num("NpFloat32", 2, 1),
                 Num("PyFloat", 1, 10), Str("")>>
 E1  == IF Thorough THEN E1t ELSE E1q
@@ -543,7 +548,7 @@ DataFloatInt(len) == [i \in 1..len |-> <<i - 2, 1>>]                  \* -1.0 0.
 ShapesQ == <<<<0>>, <<1>>, <<3>>, <<1, 1>>, <<2, 2>>, <<2, 3>>, <<0, 2>>, <<2, 0>>>>
 ShapesT == ShapesQ \o <<<<5>>, <<3, 1>>, <<2, 1, 2>>, <<0, 0>>, <<1, 0, 2>>>>
 Shapes  == IF Thorough THEN ShapesT ELSE ShapesQ
-DtypesQ == <<"int32", "int64", "float32", "float64", "int8", "uint16", "float16", "bool">>
+DtypesQ == <<"int32", "int64", "float32", "float64", "int8", "uint16", "float16", "bool", "float128">>
 DtypesT == DtypesQ \o <<"int16", "uint8", "uint32", "uint64">>
 Dtypes  == IF Thorough THEN DtypesT ELSE DtypesQ
 ArraysOf(dt) ==
@@ -598,7 +603,7 @@ PBase ==
      <<PV("num", Num("NpFloat64", 1, 0)), PV("arr", Arr("float64", <<3>>, DataFloatInf(3))),
        PV("lst", List(<<Num("PyFloat", -1, 0), Num("PyInt", 0, 1), Num("NpFloat32", 1, 0)>>)), PV("str", Str("ab"))>>,
      \* strings that look like format fields, one naming another parameter
-     <<PV("str", Str("c{num}")), PV("num", Num("PyInt", 0, 1)), PV("lst", List(<<Str("{0}"), Str("set{{A}}")>>)),
+     <<PV("str", Str("c{num}")), PV("num", Num("PyInt", 0, 1)), PV("lst", List(<<Str("{0}"), Str("set{{A}}"), Str("s@u{dcff}@@u{1f600}@")>>)),
        PV("arr", Arr("int64", <<2>>, DataInt(2)))>>,
      \* a 3-D array (children are 2-D arrays), nested empty lists, a narrow float, the empty string
      <<PV("arr", Arr("float16", <<2, 1, 2>>, DataFloat(4))), PV("lst", List(<<List(<<>>), List(<<Num("NpUInt8", 200, 1)>>)>>)),
@@ -626,7 +631,7 @@ UR(v, t) == [op |-> "upd", v |-> v, tot |-> t, rd |-> <<>>]
 MG(Rd)   == [op |-> "merge", v |-> NoneV, tot |-> Num("PyInt", 1, 1), rd |-> <<Rd>>]
 SumAlpha == <<U(Num("PyInt", 3, 1)), U(Num("PyFloat", 1, 2)), U(Num("NpInt32", -2, 1)), U(Num("NpFloat32", 3, 2)),
               U(Num("NpFloat64", 1, 4)), U(Num("NpInt64", 5, 1)), U(Num("PyFloat", 0, 1)), U(Num("PyInt", 0, 1)),
-              U(Num("PyFloat", 1, 0)), U(Num("NpFloat32", 1, 0))>>
+              U(Num("PyFloat", 1, 0)), U(Num("NpFloat32", 1, 0)), U(Num("NpLongDouble", 3, 2))>>
 RatioAlpha == <<UR(Num("PyInt", 1, 1), Num("PyInt", 4, 1)), UR(Num("PyInt", 1, 1), Num("PyInt", 3, 1)),
                 UR(Num("NpInt64", 3, 1), Num("NpInt64", 8, 1)), UR(Num("NpFloat32", 3, 2), Num("PyInt", 2, 1)),
                 UR(Num("PyInt", 0, 1), Num("NpInt32", 5, 1)), UR(Num("PyFloat", 1, 2), Num("PyFloat", 5, 2)),
@@ -695,7 +700,10 @@ FalsyResSet ==
      [name |-> "c", rs |-> <<MkR("c", CHOICET, TRUE, <<U(Num("PyInt", 0, 1))>>), MkR("c", CHOICET, FALSE, <<>>)>>],
      [name |-> "inf", rs |-> <<MkR("inf", SUMT, TRUE, <<U(Num("PyFloat", 1, 0)), U(Num("PyInt", 3, 1))>>)>>],
      [name |-> "b{num}%", rs |-> <<MkR("b{num}%", MISCT, FALSE, <<U(Str("{0}"))>>)>>],
-     [name |-> "C", rs |-> <<MkR("C", SUMT, FALSE, <<U(Num("PyInt", 1, 1))>>)>>] >>
+     [name |-> "C", rs |-> <<MkR("C", SUMT, FALSE, <<U(Num("PyInt", 1, 1))>>)>>],
+     \* text is data in every route: non-ASCII, astral and LONE SURROGATE code points (a name from os.fsdecode) in a
+     \* result name and a value.  @u{hex}@ stands for the code point (the harness substitutes it; the model treats text as opaque)
+     [name |-> "n@u{e9}@@u{dcff}@", rs |-> <<MkR("n@u{e9}@@u{dcff}@", MISCT, TRUE, <<U(Str("v@u{dcff}@ @u{1f600}@")), U(Num("NpLongDouble", 3, 2))>>)>>] >>
 ResSets ==
   << << [name |-> "ber", rs |-> <<MkR("ber", RATIOT, FALSE, <<RatioAlpha[1]>>), MkR("ber", RATIOT, FALSE, <<RatioAlpha[3], RatioAlpha[1]>>)>>],
         [name |-> "sum", rs |-> <<MkR("sum", SUMT, TRUE, <<SumAlpha[1], SumAlpha[2]>>)>>] >>,
